@@ -80,6 +80,11 @@ def inmem_update_delayed(repo_root, tier):
             errs.append("waiting_order_kept")
         if len(moved) != len(set(map(id, moved))):
             errs.append("no_duplicates")
+        # C15: the messages of one due time enter the waiting queue in the order they were enqueued
+        for t, lst in d0.items():
+            pos = [s1.index(m) for m in lst if m in s1]
+            if pos != sorted(pos):
+                errs.append("bucket_order_kept")
         if list(q.dead) != dead0 or set(q.processing) != proc0:
             errs.append("frame")
         # single_copy_kept (the clauses the proof leaves to this stand-in): every message is in exactly one place, once
@@ -90,7 +95,7 @@ def inmem_update_delayed(repo_root, tier):
 
     for k in range(0, 4):
         for times in itertools.permutations(grid, k):       # every insertion order of the dict, not only ascending
-            for sizes in itertools.product(range(1, maxlist + 1), repeat=k):
+            for sizes in itertools.product(range(1, (2 if k <= 2 else maxlist) + 1), repeat=k):
                 for waiting in range(0, 3):
                     evaluations += 1
                     errs = asyncio.run(run_case(times, sizes, waiting))
@@ -98,7 +103,7 @@ def inmem_update_delayed(repo_root, tier):
                         failures.append({"clauses": errs, "due_times_us_from_now": [int((t - now).total_seconds() * 1e6) for t in times],
                                          "list_sizes": list(sizes), "waiting": waiting})
     return {"name": "inmem_update_delayed", "fn": "repid/connections/in_memory/consumer.py::_InMemoryConsumer.__update_delayed",
-            "bound": f"<=3 delayed entries on a 7-point grid around now, lists of <= {maxlist}, <= 2 waiting",
+            "bound": f"<=3 delayed entries on a 7-point grid around now, lists of <= {maxlist} (<= 2 when there are at most two entries), <= 2 waiting",
             "evaluations": evaluations, "failures": failures[:5], "n_failures": len(failures)}
 
 
